@@ -194,6 +194,7 @@ def run_phyclone_chain(
     chain_num,
     subtree_update_prob,
 ):
+    _verif_chain_delay("PHYCLONE_VERIF_START_DELAYS", chain_num)
     tree_dist = TreeJointDistribution(FSCRPDistribution(concentration_value))
     kernel = setup_kernel(outlier_prob, proposal, rng, tree_dist)
     samplers = setup_samplers(kernel, num_particles, outlier_prob, resample_threshold, rng, tree_dist)
@@ -229,7 +230,26 @@ def run_phyclone_chain(
         rng,
         subtree_update_prob,
     )
+    _verif_chain_delay("PHYCLONE_VERIF_END_DELAYS", chain_num)
     return results
+
+
+def _verif_chain_delay(var_name, chain_num):
+    """Verification hook, inert unless PHYCLONE_VERIF=1: sleep for the number of seconds listed for this
+    chain in the comma-separated environment variable `var_name` (used to force chain start / completion
+    orders when checking that a seeded run does not depend on scheduling)."""
+    import os
+
+    if os.environ.get("PHYCLONE_VERIF") != "1":
+        return
+    delays = os.environ.get(var_name, "")
+    if not delays:
+        return
+    import time
+
+    parts = delays.split(",")
+    if chain_num < len(parts) and parts[chain_num].strip():
+        time.sleep(float(parts[chain_num]))
 
 
 def _run_main_sampler(
